@@ -131,7 +131,8 @@ def run(ctx):
     for dd_, tag_ in ((da, b'ZERO'), (db, b'ONE')):
         if not dd_.cats[0].files:
             dd_.cats[0].files = [discs.AbsFile(0x24, b'MENU', False, 0, 0, 2, b'menu of side ' + tag_ + r.bytes(300))]
-    ia, ib = da.encode(lambda n: bytes(n)), db.encode(lambda n: bytes(n))
+    rfa, rfb = r.fork(), r.fork()
+    ia, ib = da.encode(lambda n: rfa.bytes(n)), db.encode(lambda n: rfb.bytes(n))      # every unused sector is different too
     fa, fb = da.all_files()[0][3], db.all_files()[0][3]
     for (na, nb) in (('side0/disc.ssd', 'side1/disc.ssd'), ('p/first.ssd', 'q/second.ssd')):
         for cmd in (['cat', '0'], ['cat', '1'], ['type', '--binary', b':0.' + bytes([fa.dir]) + b'.' + fa.shown_name()],
